@@ -4,7 +4,8 @@ checks it against /root/.vp/BASELINE.json (207 stable passes, 3 known failures).
 import json, re, subprocess, sys, os
 env = dict(os.environ, CARGO_NET_OFFLINE="true")
 env.pop("RUSTFLAGS", None)
-p = subprocess.run(["cargo", "test", "--workspace", "--no-fail-fast", "--offline"], cwd="/repo",
+REPO_DIR = os.environ.get("REPO_DIR", "/repo")
+p = subprocess.run(["cargo", "test", "--workspace", "--no-fail-fast", "--offline"], cwd=REPO_DIR,
                    stdout=subprocess.PIPE, stderr=subprocess.STDOUT, text=True, env=env)
 out = p.stdout
 cur = None
